@@ -185,12 +185,12 @@ def check(run):
             metas.append(meta)
             if s % a != 0:
                 nontrivial.add((front, s, a))
-    for _ in range(4000 if thorough else 1000):
+    for _ in range(40000 if thorough else 1000):
         lines, meta = data_case(rng.choice(["simple", "vec", "asm"]), rng.choice(fams), rng)
         progs.append(lines)
         metas.append(meta)
     npool = 0
-    for _ in range(8000 if thorough else 2000):
+    for _ in range(80000 if thorough else 2000):
         lines, meta = pool_case(rng.choice(["vec", "asm", "mod"]), rng.choice(fams), rng, valid=not rng.chance(1, 6))
         progs.append(lines)
         metas.append(meta)
